@@ -10,7 +10,11 @@
 (*    smaller one (evaluation under limit L is a prefix of evaluation      *)
 (*    under L' > L);                                                       *)
 (*  - for a FLAT program (K instructions none of which adds exec items)    *)
-(*    exactly min(L, K) steps were taken: exec holds K - min(L, K) items.  *)
+(*    exactly min(L, K) steps were taken: exec holds K - min(L, K) items;  *)
+(*  - for a COUNTED program (dup_block nested d deep around               *)
+(*    [int.push 1, int.pop]: Steps(d) = 5 * 2^d - 3 steps in constant      *)
+(*    space) the run finishes - exec and int empty - iff the step limit is *)
+(*    at least Steps(d), however many millions of steps that takes.        *)
 (***************************************************************************)
 EXTENDS Naturals, Sequences, Json, IOUtils, TLC
 
@@ -19,6 +23,12 @@ Log == ndJsonDeserialize(IOEnv.TRACE)
 VARIABLES l, pending     \* pending: a begin without its bound yet
 Stacks == {"exec", "int", "flt", "bool"}
 Min(a, b) == IF a < b THEN a ELSE b
+
+(* steps to evaluate the counted program of depth d: the body takes 2; one level *)
+(* costs the dup_block itself plus, twice, unfolding the block and running it    *)
+RECURSIVE Steps(_)
+Steps(d) == IF d = 0 THEN 2 ELSE 1 + 2 * (1 + Steps(d - 1))
+ASSUME \A d \in 0..12 : Steps(d) + 3 = 5 * (2 ^ d)
 
 TraceInit == l = 1 /\ pending = FALSE
 
@@ -33,6 +43,9 @@ Bound ==
   /\ (e.status = "ok" => e.err.kind = "none")
   /\ e.prefix_ok
   /\ (e.flat => (e.status = "ok" /\ e.sizes.exec = e.k - Min(e.limit, e.k)))
+  /\ (("counted" \in DOMAIN e) =>
+        /\ e.status = "ok"
+        /\ (e.limit >= Steps(e.depth) <=> (e.sizes.exec = 0 /\ e.sizes.int = 0)))
 
 TraceNext == l <= Len(Log) /\ l' = l + 1 /\ (Begin \/ Bound)
 
